@@ -164,9 +164,17 @@ def r4(F, rep):
             "not named: %s" % missing, not missing or "default" in unsup, func=f.q)
 
 
+def r7(F, rep):
+    from . import mirror
+    mirror.check(F, rep, "C05-R7", lambda f: f.cls == "colvarbias_meta" or f.name == "bin_distance_from_boundaries", 4,
+                 "the metadynamics code and colvar_grid::bin_distance_from_boundaries() (which decides which hills are "
+                 "kept for analytic evaluation outside the grid)")
+
+
 def run(F, rep, tier):
     r1(F, rep)
     r2(F, rep)
     r3(F, rep)
     r4(F, rep)
     r5_r6(F, rep)
+    r7(F, rep)
